@@ -186,7 +186,7 @@ func (w *walker) walk(v reflect.Value) string {
 		}
 		c := v.Complex()
 		z := 0
-		if imag(c) == 0 {
+		if imag(c) == 0 && !math.Signbit(imag(c)) { // only +0 is left out of the wire form
 			z = 1
 		}
 		return fmt.Sprintf("(cx %s %s %d)", floatSexp(real(c), bits), floatSexp(imag(c), bits), z)
